@@ -889,6 +889,20 @@ def replay(rep: dict) -> int:
             after = res_key(L.call(run_probe))
             print("before:", show(before)); print("after :", show(after))
             rc = 1 if before != after else 0
+        elif entry == "frame-fresh-subclass":
+            import dataclasses as dc
+            sc = scenario_from_module(mod, rep)
+            cn = rep["class"]
+            o = L.build(mod, default_value(sc, cn))
+            for stmt in rep["creations"]:
+                exec(stmt, mod.__dict__)
+            n = len(rep["creations"]) - 1
+            S = [v for k, v in mod.__dict__.items() if k.startswith("_S") and isinstance(v, type)][-1]
+            s_inst = S(**{f.name: getattr(o, f.name) for f in dc.fields(o)})
+            a = res_key(L.call(lambda: s_inst.to_dict(dialect=Dl) if Dl else s_inst.to_dict()))
+            b = res_key(L.call(lambda: BasicEncoder(S, **kw).encode(s_inst)))
+            print("subclass.to_dict:", show(a)); print("codec           :", show(b))
+            rc = 1 if a != b else 0
         else:
             print("unknown replay entry", entry)
             return 2
